@@ -123,6 +123,54 @@ func (a *arena) Out(name string, b []byte, spare int, fill byte) []byte {
 	return buf[: len(b) : len(b)+spare]
 }
 
+// garbage fills an out-parameter with non-zero bytes: code that reads its destination before writing it (or only
+// writes it on some paths) then produces output that depends on caller memory
+func garbage(b []byte) {
+	for i := range b {
+		b[i] = 0xd1 + byte(i%13)
+	}
+}
+
+// G16/G32 return reused out-parameter arrays pre-filled with non-zero garbage (not tracked: the callee writes them).
+func (a *arena) G16(name string) *[16]byte {
+	p := a.a16[name]
+	if p == nil {
+		p = new([16]byte)
+		a.a16[name] = p
+	}
+	garbage(p[:])
+	return p
+}
+
+func (a *arena) G32(name string) *[32]byte {
+	p := a.a32[name]
+	if p == nil {
+		p = new([32]byte)
+		a.a32[name] = p
+	}
+	garbage(p[:])
+	return p
+}
+
+// Joint places `prefix` and `input` back to back in ONE reused buffer and returns dst = buf[:len(prefix)] with
+// capacity for input+extra and in = the input bytes right behind it: the documented in-place use
+// (`Seal(pt[:0], …, pt, …)`, `Open(ct[:0], …, ct, …)`; with a prefix: exact overlap of out and input).
+// The input is not tracked (the callee legitimately overwrites it); the guard behind the buffer is.
+func (a *arena) Joint(name string, prefix, input []byte, extra int, fill byte) (dst, in []byte) {
+	k, n := len(prefix), len(input)
+	buf := a.backing(name, k+n+extra+8)
+	copy(buf, prefix)
+	copy(buf[k:], input)
+	for i := k + n; i < k+n+extra; i++ {
+		buf[i] = fill
+	}
+	for i := k + n + extra; i < len(buf); i++ {
+		buf[i] = sentinel
+	}
+	a.track(name+".guard", buf[k+n+extra:])
+	return buf[: k : k+n+extra], buf[k : k+n : k+n]
+}
+
 // mutated returns "" or " mutated=<names>" for inputs whose bytes (or sentinels) changed during the call.
 func (a *arena) mutated() string {
 	var bad []string
